@@ -222,12 +222,17 @@ def splitOn (sep : Char) (cs : List Char) : List (List Char) :=
     if c == sep then ([], acc.1 :: acc.2) else (c :: acc.1, acc.2)) ([], [])
   r.1 :: r.2
 
-/-- base name of a `*.dsdl` file -> accepted shape or `FileNameFormatError` (ASCII digits) -/
+/-- `_parse_decimal` succeeds: a plain decimal numeral, ASCII digits only (`text.isascii() and text.isdigit()`).  Since the
+    fix of finding F10 the file-name rules no longer go through the lenient `int()` (`pyIntOk` above) alone. -/
+def decimalOk (cs : List Char) : Bool := !cs.isEmpty && cs.all Char.isDigit
+
+/-- base name of a `*.dsdl` file -> accepted shape or `FileNameFormatError` (tied to the code generated from
+    `DSDLDefinition.__init__` by `C13.gen_filename_outcome`) -/
 def fileNameOutcome (basename : String) : NameOutcome :=
   let comps := (splitOn '.' basename.toList).dropLast
   match comps with
-  | [p, _, ma, mi] => if pyIntOk p && pyIntOk ma && pyIntOk mi then .parsed true else .formatError
-  | [_, ma, mi] => if pyIntOk ma && pyIntOk mi then .parsed false else .formatError
+  | [p, _, ma, mi] => if decimalOk p && decimalOk ma && decimalOk mi then .parsed true else .formatError
+  | [_, ma, mi] => if decimalOk ma && decimalOk mi then .parsed false else .formatError
   | _ => .formatError
 
 end Ex
